@@ -62,7 +62,7 @@ def mc_runs(ctx):
 
 # --------------------------------------------------------------------------- scenarios
 
-CONCRETE = {"healthy": [None], "undialable": ["undialable", "refusing", "dropbefore"], "noaddr": ["noaddr"], "nokad": ["nokad"],
+CONCRETE = {"healthy": [None, "decoy", None], "undialable": ["undialable", "refusing", "dropbefore"], "noaddr": ["noaddr"], "nokad": ["nokad"],
             "silent": ["silent", "silentput"], "dropafter": ["dropconn", "droprecv"]}
 
 
@@ -123,6 +123,8 @@ FAULTS = {
     "droprecv": {"role": "kad", "drop": "recv"},
     "silent": {"role": "silent"},
     "silentput": {"role": "silentput"},
+    # a live node whose routing entries also carry dead addresses (mix: of the other transports)
+    "decoy": {"role": "kad", "decoy": True},
 }
 SLOW = {"silent": 15, "silentput": 15, "nokad": 10}     # seconds of timeouts expected to fire on the path
 
@@ -131,13 +133,51 @@ def fault(name, known=True, learn=True):
     return dict(FAULTS[name], known=known, learn=learn, fault=name)
 
 
-def deadline(nodes, ops):
+QUIC_DIAL = 10    # QUIC open timeout configured by the harness (5 s: quinn handshake and idle timeout) x DIAL_DEADLINE_MULTIPLIER
+
+
+def deadline(nodes, ops, tr="tcp"):
     t = 0
     for n in nodes:
         t = max(t, SLOW.get(n.get("fault", ""), 0))
     # a peer that answers lookups but nothing else is waited for in the lookup of others and again in the send phase
     phases = 2 if any(o["kind"] in ("put", "provide") for o in ops) and any(n.get("fault") == "silentput" for n in nodes) else 1
+    if tr in ("quic", "mix") and (any(n.get("fault") for n in nodes)):
+        # over QUIC a dead or unreachable peer is only noticed by the handshake / idle timeout, in the lookup and
+        # again in the send phase
+        t += QUIC_DIAL
+        if any(o["kind"] in ("put", "provide") for o in ops):
+            phases = 2
     return (3 * t * phases + 30) * 1000
+
+
+TRANSPORTS = ("tcp", "ws", "quic", "mix")
+
+
+def retarget(s, tr):
+    d = json.loads(json.dumps(s))
+    d["transport"] = tr
+    if tr != "tcp":
+        d["name"] = "%s@%s" % (s["name"], tr)
+    if "deadline_ms" in s:
+        d["deadline_ms"] = deadline(d["nodes"], d["ops"], tr)
+    return d
+
+
+def family(name):
+    """scenario family of a base scenario name (used to sample the non-tcp transports in the quick tier)"""
+    if name.startswith("tlc-"):
+        return "tlc:" + name.split("-")[1]
+    for k in ("-discovered-", "-warm-", "-direct-"):
+        if k in name:
+            return k.strip("-")
+    if name.startswith("limit-"):
+        return "limit"
+    if name.startswith("inbound-only"):
+        return "inbound"
+    if name.startswith("random-"):
+        return "random"
+    return "single:" + name
 
 
 def mk(name, nodes, ops, **kw):
@@ -167,8 +207,9 @@ def op_variants(fault_idx, nh):
     return v
 
 
-def scenarios(ctx, pl=()):
-    rnd = random.Random(ctx.seed)
+def base_scenarios(ctx, pl, seed):
+    """transport-agnostic scenario list (no ids)"""
+    rnd = random.Random(seed)
     S = []
     names = list(FAULTS)
     if ctx.quick():
@@ -195,6 +236,9 @@ def scenarios(ctx, pl=()):
                     [o for o in op_variants(4, 3) if o.get("quorum", "one") in ("one", "all")][:7]))
         S += limit_scenarios()
         S.append(mk("healthy-all-kinds", [dict(H), dict(H), dict(H), dict(H)], op_variants(4, 4)[:8] + [{"kind": "get_providers", "holders": [3]}]))
+        S.append(mk("decoy-all-kinds", [dict(H), fault("decoy"), fault("decoy"), dict(H)],
+                    [{"kind": "find_node"}, {"kind": "put", "quorum": "all"}, {"kind": "put_to", "quorum": "all", "targets": [1, 2, 3]},
+                     {"kind": "provide", "quorum": "all"}]))
         S.append(mk("local-holder-undialable", [dict(H), dict(H), fault("undialable")], op_variants(3, 2)[-3:]))
     else:
         S += placement_scenarios(ctx, pl)
@@ -238,6 +282,39 @@ def scenarios(ctx, pl=()):
                         nodes[t - 1]["known"] = True
             S.append(mk("random-%d" % i, nodes, ops, warm=rnd.random() < 0.4, seq=rnd.random() < 0.2,
                         after_drop_ms=rnd.choice([0, 300])))
+    return S
+
+
+def scenarios(ctx, pl=()):
+    """tcp: every base scenario.  ws / quic / mix: thorough - every base scenario again (random family with its own
+    seed); quick - a sample of every scenario family, rotating through roles and operations per transport."""
+    base = base_scenarios(ctx, pl, ctx.seed)
+    if ctx.quick():
+        base.append(inbound_scenarios()[1])
+    S = [retarget(s, "tcp") for s in base]
+    for ti, tr in enumerate(TRANSPORTS[1:]):
+        if not ctx.quick():
+            S += [retarget(s, tr) for s in base_scenarios(ctx, pl, ctx.seed * 10 + ti + 1)]
+            continue
+        fams = {}
+        for s in base:
+            fams.setdefault(family(s["name"]), []).append(s)
+        for fam, L in sorted(fams.items()):
+            if fam.startswith("tlc:"):
+                n = 2
+            elif fam in ("discovered", "warm"):
+                n = 3
+            elif fam == "direct":          # the two silent placements of the quick tier: one per transport
+                n = 1
+            else:
+                n = len(L)
+            step = max(1, len(L) // n)
+            picks = [L[(ti + ctx.seed + k * step + (ti * 5 if step > 1 else 0)) % len(L)] for k in range(n)]
+            seen = set()
+            for s in picks:
+                if s["name"] not in seen:
+                    seen.add(s["name"])
+                    S.append(retarget(s, tr))
     for i, s in enumerate(S):
         s["id"] = i + 1
     return S
@@ -401,7 +478,7 @@ def judge(ctx, scen, lines, diags):
         seen.add(key)
         sc, dg = byid.get(hdr.get("id")), diags.get(hdr.get("id"))
         for sig, text in classify(seg, r.reason, sc, dg):
-            violations.append({"sig": sig, "what": "%s [scenario %s]" % (text, hdr.get("name")),
+            violations.append({"sig": sig, "what": "%s [scenario %s, transport %s]" % (text, hdr.get("name"), hdr.get("tr", "tcp")),
                                "replay_obj": {"property": "C16", "signature": sig, "reason": r.reason, "scenario": sc,
                                               "trace": [json.loads(x) for x in seg],
                                               "markers_local_node": {k: v[:2] for k, v in (dg or {}).get("markers", {}).get("0", {}).items()}}})
@@ -410,6 +487,7 @@ def judge(ctx, scen, lines, diags):
 
 def coverage(scen, diags, lines, mc, summ, nseg, nev):
     roles, kinds, outcomes = {}, {}, {}
+    bytr = {}
     shapes = set()
     nontrivial = set()
     for s in scen:
@@ -417,11 +495,16 @@ def coverage(scen, diags, lines, mc, summ, nseg, nev):
         if not d or d.get("discarded"):
             continue
         fr = sorted(n.get("fault") for n in s["nodes"] if n.get("fault"))
+        bt = bytr.setdefault(s.get("transport", "tcp"), {"networks": 0, "operations": 0, "outcomes": {}, "fault_roles": {}, "late_ms_max": 0})
+        bt["networks"] += 1
+        bt["late_ms_max"] = max(bt["late_ms_max"], d.get("late_ms", 0))
         for f in fr:
             roles[f] = roles.get(f, 0) + 1
+            bt["fault_roles"][f] = bt["fault_roles"].get(f, 0) + 1
         if s.get("limit") is not None:
             roles["limit-" + s.get("lim", "set")] = roles.get("limit-" + s.get("lim", "set"), 0) + 1
-        shape = json.dumps([fr, s.get("limit"), bool(s.get("warm")), [(o["kind"], o.get("quorum"), o.get("targets")) for o in s["ops"]],
+            bt["fault_roles"]["limit-" + s.get("lim", "set")] = bt["fault_roles"].get("limit-" + s.get("lim", "set"), 0) + 1
+        shape = json.dumps([s.get("transport", "tcp"), fr, s.get("limit"), bool(s.get("warm")), [(o["kind"], o.get("quorum"), o.get("targets")) for o in s["ops"]],
                             [(n["role"], n.get("known"), n.get("drop")) for n in s["nodes"]]], sort_keys=True)
         shapes.add(shape)
         if fr or s.get("limit") is not None:
@@ -430,6 +513,18 @@ def coverage(scen, diags, lines, mc, summ, nseg, nev):
             kinds[o["kind"]] = kinds.get(o["kind"], 0) + 1
             res = "none" if not o["terms"] else ("ok" if o["terms"][0]["ok"] else "failed")
             outcomes[res] = outcomes.get(res, 0) + 1
+            bt["operations"] += 1
+            bt["outcomes"][res] = bt["outcomes"].get(res, 0) + 1
+    alive_fail = []
+    for s in scen:
+        d = diags.get(s["id"])
+        if not d or d.get("discarded") or s.get("limit") is not None:
+            continue
+        if all(n.get("fault") in (None, "decoy") and n.get("drop", "never") == "never" for n in s["nodes"]):
+            for o in d["ops"]:
+                if o["kind"] in ("find_node", "put", "put_to", "provide") and not (o["terms"] and o["terms"][0]["ok"]):
+                    alive_fail.append({"scenario": s["name"], "op": o["kind"], "quorum": o["quorum"], "terms": o["terms"], "recv_at": o["recv_at"],
+                                       "markers": {k: len(v) for k, v in d.get("markers", {}).get("0", {}).items() if k != "transport_debug"}})
     samples = []
     for pre in ("tlc-noaddr-put_to", "noaddr-put_to", "silent-direct", "silentput-direct", "limit-racing", "limit-reached", "tlc-dropconn-put-",
                 "tlc-refusing-find_node", "tlc-nokad+", "inbound-only-slow", "healthy-all-kinds"):
@@ -451,13 +546,17 @@ def coverage(scen, diags, lines, mc, summ, nseg, nev):
         "rule": "a case is one network of real litep2p nodes (local node + 2-4 ordinary Kademlia nodes + fault nodes) in which the "
                 "local node runs 1-9 operations through KademliaHandle; evaluations = operations monitored (incl. warm-up and "
                 "holder operations); distinct_nontrivial = distinct (fault roles, limit, warm-up, operations, node knowledge) shapes "
-                "with at least one fault node or a connection limit",
+                "with at least one fault node or a connection limit; every network runs over one of tcp / ws / quic / mix "
+                "(all three transports on every node, routing entries carrying different address subsets)",
         "model_runs": mc,
         "harness": summ,
         "scenarios_run": len(shapes),
         "fault_roles_exercised": roles,
         "operation_kinds_exercised": kinds,
         "operation_outcomes": outcomes,
+        "by_transport": bytr,
+        # not a rule of the property (a failure is a legal terminal event), recorded as an observation only
+        "not_ok_although_every_node_alive_and_reachable": {"count": len(alive_fail), "examples": alive_fail[:5]},
         "impl_divergences": 0,
         "exhaustive": False,
     }
@@ -475,7 +574,9 @@ def check(ctx):
     cov = coverage(scen, diags, lines, mc, summ, nseg, nev)
     cov["generation"] = gstats
     cov["placements_from_tlc"] = sum(1 for x in scen if x["name"].startswith("tlc-"))
-    missing = [f for f in list(FAULTS) + ["limit-reached", "limit-racing"] if not cov["fault_roles_exercised"].get(f)]
+    missing = ["%s@%s" % (f, tr) for tr in TRANSPORTS for f in list(FAULTS) + ["limit-reached", "limit-racing", "inbound-only"]
+               if not cov["by_transport"].get(tr, {}).get("fault_roles", {}).get(f) and not (f == "silentput" and ctx.quick())]
+    missing += [f for f in FAULTS if not cov["fault_roles_exercised"].get(f)]
     missing += [k for k in ALLK if not cov["operation_kinds_exercised"].get(k)]
     if missing:
         raise ToolError("coverage: fault roles / operation kinds never exercised: %s" % missing)
